@@ -384,14 +384,11 @@ def compare(hist, seq, results, dumps, acc, best):
                     da = dict(a)
                     db = dict(b)
                     diff = sorted(x for x in da if da.get(x) != db.get(x))
-                    prev = [o for o in seq[:k] if o not in ("obs", "lock", "unlock", "reopen")]
-                    depth = sum(1 if o == "lock" else -1 if o == "unlock" else 0 for o in seq[:k])
-                    what = "read:%s:after-%s:%s" % (diff[0], prev[-1] if prev else "nothing",
-                                                    "write-locked" if depth > 0 else "unlocked")
+                    what = "read:" + diff[0]
                     detail = {"local": da[diff[0]], name: db.get(diff[0]), "all_differing_reads": diff}
                 elif _is_exc(a) or _is_exc(b):
                     what = "exception"
-                ret = (k, "%s:%s-differs:%s" % (op, what, name),
+                ret = (k, "%s:%s-differs:%s:%s" % (op, what, _context(seq, k), name),
                        {"history": hist, "sequence": list(seq[:k + 1]), "step": k, "side": name, "differs": detail})
                 break
         sto = None          # (number of steps after which the stores first differ, signature, detail)
@@ -410,7 +407,7 @@ def compare(hist, seq, results, dumps, acc, best):
                     if dl[br][field] != dn[br][field]:
                         where.append((br, field))
             br, field = where[0]
-            sto = (k, "%s:store-%s-differs:%s" % (seq[k - 1], field, name),
+            sto = (k, "%s:store-%s-differs:%s:%s" % (seq[k - 1], field, _context(seq, k - 1), name),
                    {"history": hist, "sequence": list(seq[:k]), "side": name, "branch": br, "field": field,
                     "local": dl[br][field], name: dn[br][field], "all_differing": where})
         if ret is None and sto is None:
@@ -424,6 +421,13 @@ def compare(hist, seq, results, dumps, acc, best):
             if sto is not None and sto[0] == ret[0] + 1:
                 _note(best, acc, sto[1], tuple(sto[2]["sequence"]), sto[2])
     return ok
+
+
+def _context(seq, k):
+    """Abstract situation of step k: the last state-changing operation before it and the lock state."""
+    prev = [o for o in seq[:k] if o not in ("obs", "lock", "unlock", "reopen")]
+    depth = sum(1 if o == "lock" else -1 if o == "unlock" else 0 for o in seq[:k])
+    return "after-%s:%s" % (prev[-1] if prev else "nothing", "write-locked" if depth > 0 else "unlocked")
 
 
 def _is_exc(x):
